@@ -46,7 +46,7 @@
  "name": "ba_find_first_zero",
  "props": ["C16"],
  "level": "U",
- "tier": "wip",
+ "tier": "quick",
  "harness": "h_ba_ffz",
  "enforce": ["ba_find_first_zero"],
  "loop_contracts": true,
@@ -68,7 +68,7 @@
  "name": "ba_find_first_set",
  "props": ["C16"],
  "level": "U",
- "tier": "wip",
+ "tier": "quick",
  "harness": "h_ba_ffs",
  "enforce": ["ba_find_first_set"],
  "loop_contracts": true,
